@@ -87,7 +87,7 @@ ResetAll ==
   /\ wg' = [p \in P |-> 0] /\ scur' = [p \in P |-> 0] /\ serr' = [p \in P |-> "-"] /\ slsn' = [p \in P |-> 0]
   /\ sbad' = [p \in P |-> FALSE]
   /\ wpc' = [c \in C |-> "none"] /\ wown' = [c \in C |-> 0] /\ dl' = [c \in C |-> "none"]
-  /\ copen' = [c \in C |-> TRUE] /\ hrep' = [c \in C |-> FALSE] /\ hclosed' = [c \in C |-> FALSE]
+  /\ copen' = [c \in C |-> TRUE] /\ hrep' = [c \in C |-> FALSE] /\ hclosed' = [c \in C |-> FALSE] /\ hij' = [c \in C |-> FALSE]
   /\ kpc' = [k \in K |-> "none"] /\ kown' = [k \in K |-> 0] /\ nread' = 0
   /\ shpc' = [h \in H |-> "idle"] /\ shres' = [h \in H |-> "-"] /\ shgen' = [h \in H |-> 0]
   /\ capt' = [h \in H |-> 0] /\ kick' = [h \in H |-> {}] /\ shseen' = [h \in H |-> {}] /\ shtodo' = [h \in H |-> {}]
@@ -112,7 +112,10 @@ StRefusedAll(p) ==                \* StLock, StBody (refused), StErrReturn: one 
   /\ UNCHANGED <<fields, transp, sgen, wg, scur, serr, slsn, sbad, wvars, kvars, shvars, cvars, hist, act>>
 
 EventStep ==
-  \/ Is("start.started")  /\ Ev.p \in P /\ StBody(Ev.p) /\ spc'[Ev.p] = "top"
+  \/ Is("start.started")  /\ Ev.p \in P /\ StBody(Ev.p) /\ spc'[Ev.p] = "notify"
+  \/ Is("notify.enter")   /\ Ev.p \in P /\ spc[Ev.p] = "notify" /\ Same     \* NotifyStartedFunc entered ...
+  \/ Is("notify.exit")    /\ Ev.p \in P /\ SNotify(Ev.p)                     \* ... and returned
+  \/ Is("handler.hijack") /\ Ev.c \in C /\ WHijack(Ev.c)
   \/ Is("start.refused")  /\ Ev.p \in P /\ StRefusedAll(Ev.p)
   \/ Is("serve.returned") /\ Ev.p \in P /\
         CASE Ev.res = "already" -> spc[Ev.p] = "returned" /\ sres[Ev.p] = "already" /\ Same
